@@ -578,6 +578,17 @@ func (idx *Index) Put(key []byte, location types.Block) error {
 
 // Update updates a key together with a file offset into the index.
 func (idx *Index) Update(key []byte, location types.Block) error {
+	return idx.update(key, nil, location)
+}
+
+// Relocate re-points a key from the location prev to a new location. It fails
+// if the index does not currently map the key to prev, which means that the
+// key was updated or removed after the caller looked at the record at prev.
+func (idx *Index) Relocate(key []byte, prev, location types.Block) error {
+	return idx.update(key, &prev, location)
+}
+
+func (idx *Index) update(key []byte, prev *types.Block, location types.Block) error {
 	// Get record list and bucket index
 	bucket, err := idx.getBucketIndex(key)
 	if err != nil {
@@ -606,6 +617,9 @@ func (idx *Index) Update(key []byte, location types.Block) error {
 	r := records.GetRecord(indexKey)
 	if r == nil {
 		return fmt.Errorf("key to update not found in index")
+	}
+	if prev != nil && r.Block != *prev {
+		return fmt.Errorf("key to update is no longer at the expected location")
 	}
 	// Update key in position.
 	newData = records.PutKeys([]KeyPositionPair{{r.Key, location}}, r.Pos, r.NextPos())
